@@ -277,11 +277,13 @@ func ZZ_C03_Pipeline(ops, kind, entry, multi int) {
 	var exErr error = zzErrClosed
 	if kind == zzKException {
 		// the class of the exception does not matter to the tail: whatever is forwarded past the last handler closes
-		switch vrt.Choose(3) {
+		switch vrt.Choose(4) {
 		case 1:
 			exErr = &zzNetErr{timeout: true}
 		case 2:
 			exErr = fmt.Errorf("wrapped: %w", &zzNetErr{timeout: true})
+		case 3:
+			exErr = nil // AsException(recover()) on a path that did not panic: routed like any other exception
 		}
 	}
 	start := 0 // model index the event starts *after* (inbound) or *before* (outbound)
